@@ -8,6 +8,7 @@ import props
 import runner
 import scen
 import models
+import tlcgen
 
 VERIF = "/verif"
 KF_FILE = os.path.join(VERIF, "known_findings.json")
@@ -44,32 +45,36 @@ def plan(pid, tier, seed):
     M = []
     base = seed * 1000
     if pid in ("C01", "C04", "C05"):
-        S += scen.directed(pid)
+        S += scen.directed(pid, tier)
         S += [gen.random_history(base + i, nblocks=n(tier, 14, 22), heavy_probes=True) for i in range(n(tier, 10, 60))]
         S += [gen.random_history(base + 500 + i, net=nt, full=False, nblocks=n(tier, 14, 22), heavy_probes=True)
               for i, nt in enumerate(["mainnet", "testnet"] * n(tier, 3, 15))]
         M += models.for_property(pid, tier)
     elif pid in ("C02", "C03"):
-        S += scen.directed(pid)
+        S += scen.directed(pid, tier)
         S += [gen.random_history(base + i, nblocks=n(tier, 16, 26), diffs=(1, 2, 3), defects=False) for i in range(n(tier, 10, 60))]
         S += [gen.random_history(base + 500 + i, net=nt, full=False, nblocks=n(tier, 16, 26), diffs=(1, 2, 3, 5, 8))
               for i, nt in enumerate(["mainnet", "testnet", "regtest"] * n(tier, 3, 12))]
+        S += [scen.stability_history(base + 800 + i) for i in range(n(tier, 40, 400))]
+        S += tlcgen.corpus_scenarios(seed, n(tier, 40, 600))
         M += models.for_property(pid, tier)
     elif pid in ("C06",):
-        S += scen.directed(pid)
+        S += scen.directed(pid, tier)
         S += [scen.paging_history(base + i, nblocks=n(tier, 12, 20)) for i in range(n(tier, 10, 50))]
         M += models.for_property(pid, tier)
     elif pid in ("C07", "C08"):
-        S += scen.directed(pid)
+        S += scen.directed(pid, tier)
         S += [scen.sliced_history(base + i, nblocks=n(tier, 10, 16)) for i in range(n(tier, 10, 50))]
         M += models.for_property(pid, tier)
     elif pid == "C09":
-        S += scen.directed(pid)
+        S += scen.directed(pid, tier)
         S += [scen.upgrade_history(base + i, nblocks=n(tier, 12, 18)) for i in range(n(tier, 10, 50))]
         M += models.for_property(pid, tier)
     elif pid in ("C10", "C13", "C14", "C15", "C20"):
-        S += scen.directed(pid)
+        S += scen.directed(pid, tier)
         S += [scen.profile_history(pid, base + i, tier) for i in range(n(tier, 10, 50))]
+        if pid in ("C10", "C14", "C20"):
+            S += tlcgen.corpus_scenarios(seed, n(tier, 25, 600))
         M += models.for_property(pid, tier)
     elif pid == "C16":
         S += [scen.cycles_history(base + i, nblocks=n(tier, 8, 14)) for i in range(n(tier, 12, 80))]
